@@ -1,4 +1,141 @@
-import Ptn.C16.Model
+import Ptn.C16.TreeLemmas
 /-! Property theorems for C16. Only property theorems and non-vacuity examples live here. -/
 namespace Ptn.C16
+
+/-- **Structure of `from_ttns`.**  For every ordered tree `t` with pairwise distinct identifiers and
+identifier maps that are injective, disjoint and avoid the new root identifier `r`, `from_ttns`
+succeeds and returns a network with `2n+1` distinct nodes: the root `r` (no parent, children
+`[ket root, bra root]`) and for every state node `i` with parent `p` (resp. the root) a ket copy that is
+a child of the ket copy of `p` (resp. of `r`) and a bra copy mirrored, each with the copies of `i`'s
+children in the child order of the state. -/
+theorem ttndo_structure {α : Type} [DecidableEq α] (ket bra : α → α) (r : α) (t : Tree α)
+    (hnd : t.ids.Nodup) (H : Tagging ket bra r t.ids) :
+    ∃ net, fromTtns ket bra r t = some net ∧
+      net.order = r :: t.ids.flatMap (fun i => [ket i, bra i]) ∧
+      net.order.length = 2 * t.ids.length + 1 ∧
+      net.order.Nodup ∧
+      net.parent r = none ∧
+      net.children r = [ket t.id, bra t.id] ∧
+      ∀ e ∈ Tree.info r t,
+        net.parent (ket e.1) = some (if e.2.1 = r then r else ket e.2.1) ∧
+        net.parent (bra e.1) = some (if e.2.1 = r then r else bra e.2.1) ∧
+        net.children (ket e.1) = e.2.2.map ket ∧
+        net.children (bra e.1) = e.2.2.map bra := by
+  have hv : validOps [r] (opsT ket bra r r r t) :=
+    opsT_valid ket bra r t.ids H t r r [r] hnd (fun _ hi => hi) (by simp) (by simp)
+      (fun i hi => ⟨by simpa using H.ketR i hi, by simpa using H.braR i hi⟩)
+  obtain ⟨net, h1, h2, h3, h4, h5⟩ := applyOps_spec (Net.trivialRoot r) _ hv
+  have hfst := opsT_fst ket bra r t r r
+  have hndo : ([r] ++ (opsT ket bra r r r t).map (·.1)).Nodup := validOps_nodup [r] _ hv (by simp)
+  have hndf : ((opsT ket bra r r r t).map (·.1)).Nodup := (List.nodup_append.1 hndo).2.1
+  have hrf : r ∉ (opsT ket bra r r r t).map (·.1) := by
+    rw [hfst, mem_flatMap_pair]
+    rintro ⟨i, hi, e | e⟩
+    · exact H.ketR i hi e.symm
+    · exact H.braR i hi e.symm
+  have hlen : (t.ids.flatMap (fun i => [ket i, bra i])).length = 2 * t.ids.length := by
+    generalize t.ids = l
+    induction l with
+    | nil => rfl
+    | cons a as ih => simp [List.flatMap_cons, ih]; omega
+  refine ⟨net, by rw [fromTtns_eq]; exact h1, ?_, ?_, ?_, ?_, ?_, ?_⟩
+  · rw [h2, hfst]; rfl
+  · rw [h2, hfst]; simp [Net.trivialRoot, hlen]
+  · rw [h2]; exact hndo
+  · rw [h3 r hrf]; rfl
+  · rw [h5 r, if_neg hrf]
+    cases t with
+    | node i ks =>
+      have hiS : i ∈ (Tree.node i ks).ids := by simp [Tree.ids]
+      have hir : ¬ i = r := fun e => H.rS (e ▸ hiS)
+      have hsub := childOps_opsL_nil ket bra r _ H ks (ket i) (bra i) r
+        (fun j hj => by simp [Tree.ids, hj]) (fun e => H.ketR i hiS e.symm) (fun e => H.braR i hiS e.symm)
+        (fun j hj => ⟨fun e => H.ketR j (by simp [Tree.ids, hj]) e.symm,
+                      fun e => H.braR j (by simp [Tree.ids, hj]) e.symm⟩)
+      simp [Net.trivialRoot, opsT, hir, childOps_cons, hsub, Tree.id]
+  · intro e he
+    have hi : e.1 ∈ t.ids := info_ids t r e he
+    have hmem := info_mem_opsT ket bra r t.ids H t r e he
+    simp only [if_true] at hmem
+    have hkf : ket e.1 ∈ (opsT ket bra r r r t).map (·.1) := by
+      rw [hfst, mem_flatMap_pair]; exact ⟨e.1, hi, Or.inl rfl⟩
+    have hbf : bra e.1 ∈ (opsT ket bra r r r t).map (·.1) := by
+      rw [hfst, mem_flatMap_pair]; exact ⟨e.1, hi, Or.inr rfl⟩
+    have hch := childOps_info_opsT ket bra r t.ids H t r r r e hnd (fun _ h => h) he
+    refine ⟨h4 _ _ hmem.1 hndf, h4 _ _ hmem.2 hndf, ?_, ?_⟩
+    · rw [h5, if_pos hkf, hch.1 (fun e' => H.ketR _ hi e'.symm) (fun e' => H.ketR _ hi e'.symm)]; rfl
+    · rw [h5, if_pos hbf, hch.2 (fun e' => H.braR _ hi e'.symm) (fun e' => H.braR _ hi e'.symm)]; rfl
+
+/-- **The suffix convention is an injective tagging** for *all* identifier strings: appending `_ket` /
+`_bra` is injective, the two images are disjoint (also for identifiers that themselves end in a
+suffix); only the freshness of the new root identifier is a precondition on the caller. -/
+theorem suffix_tagging (r : Ident) (S : List Ident) (hr : r ∉ S) (hk : ∀ i ∈ S, ketId i ≠ r)
+    (hb : ∀ i ∈ S, braId i ≠ r) : Tagging ketId braId r S where
+  rS := hr
+  ketR := hk
+  braR := hb
+  ketInj := fun _ _ _ _ e => List.append_cancel_right e
+  braInj := fun _ _ _ _ e => List.append_cancel_right e
+  ketBra := fun i _ j _ e => by
+    have := (List.append_inj' e (by decide)).2
+    exact absurd this (by decide)
+
+/-- non-vacuity: identifiers that already end in the suffixes (`a`, `a_ket`, `a_ket_bra`) -/
+example : Tagging ketId braId "ttndo_root".toList ["a".toList, "a_ket".toList, "a_ket_bra".toList] :=
+  suffix_tagging _ _ (by decide) (by decide) (by decide)
+
+example : (fromTtns ketId braId "R".toList
+    (.node "a".toList [.node "a_ket".toList [], .node "b".toList []])).map (·.order.map String.ofList) =
+    some ["R", "a_ket", "a_bra", "a_ket_ket", "a_ket_bra", "b_ket", "b_bra"] := by decide
+
+/-- **`ttndo_contraction_order`** (after the repair of F-C16b): filtering `linearise()` with
+`endswith(ket_suffix)` returns exactly the ket copies, in linearisation order, for every tree and all
+identifier strings — provided only that the root identifier itself does not end with the ket suffix. -/
+theorem contraction_order_kets (r : Ident) (t : Tree Ident) (hr : endsWith r ketSuffix = false) :
+    contractionOrder ketSuffix (linearisedIds r t) = t.post.map ketId := by
+  have h1 : (t.post.map ketId).filter (endsWith · ketSuffix) = t.post.map ketId :=
+    List.filter_eq_self.2 (fun x hx => by
+      obtain ⟨s, _, rfl⟩ := List.mem_map.1 hx
+      exact endsWith_append_suffix s ketSuffix)
+  have h2 : (t.post.map braId).filter (endsWith · ketSuffix) = [] :=
+    List.filter_eq_nil_iff.2 (fun x hx => by
+      obtain ⟨s, _, rfl⟩ := List.mem_map.1 hx
+      have := not_endsWith_of_other_suffix s ketSuffix braSuffix (by decide) (by decide)
+      simp [braId, this])
+  simp [contractionOrder, linearisedIds, List.filter_append, h1, h2, hr]
+
+example : endsWith "ttndo_root".toList ketSuffix = false := by decide
+
+/-- `reverse_ket_id` / `reverse_bra_id` undo `ket_id` / `bra_id` -/
+theorem reverseId_append (s sfx : Ident) : reverseId sfx (s ++ sfx) = some s := by
+  simp [reverseId, endsWith_append_suffix]
+
+/-- **The padded root bond.**  `from_ttns` reshapes the state's root tensor to a leading axis of length 1
+and pads that axis to `root_bond_dim = d`: entry `0` is the tensor, every entry `k ≥ 1` is zero. -/
+theorem padded_root_index (β : Type) [OfNat β 0] (x : Nat → β) (k : Nat) :
+    pad0 0 1 x k = if k = 0 then x 0 else 0 := by
+  cases k with
+  | zero => simp [pad0]
+  | succ k => simp [pad0]
+
+/-- hence the identity matrix on the root couples only index 0 of the ket copy with index 0 of the bra
+copy: `Σ_{a,b<d} eye[a,b]·K[a]·B[b] = K₀·B₀` for every root bond dimension `d ≥ 1`. -/
+theorem padded_root_no_contribution (d : Nat) (hd : 0 < d) (x y : Nat → Int) :
+    ((List.range d).map (fun a => ((List.range d).map
+        (fun b => (if a = b then 1 else 0) * pad0 0 1 x a * pad0 0 1 y b)).sum)).sum = x 0 * y 0 := by
+  obtain ⟨n, rfl⟩ : ∃ n, d = n + 1 := ⟨d - 1, by omega⟩
+  rw [sum_range_head _ n]
+  · rw [sum_range_head _ n]
+    · simp [padded_root_index]
+    · intro b; simp [padded_root_index]
+  · intro a
+    have : (fun b => (if a + 1 = b then (1 : Int) else 0) * pad0 0 1 x (a + 1) * pad0 0 1 y b) = fun _ => 0 := by
+      funext b; simp [padded_root_index]
+    rw [this]
+    exact sum_map_zero _
+
+example : ((List.range 3).map (fun a => ((List.range 3).map
+    (fun b => (if a = b then 1 else 0) * pad0 0 1 (fun _ => (5 : Int)) a * pad0 0 1 (fun _ => (7 : Int)) b)).sum)).sum
+    = 35 := by decide
+
 end Ptn.C16
